@@ -589,16 +589,18 @@ func checkJumpArith(c *Ctx, r *Report, rule string) {
 			form, _ = vs.v.asLin()
 			break
 		}
-		k, isC := c.intConst(be.Y)
-		if form == nil || !isC {
+		if _, isC := c.intConst(be.Y); form == nil || !isC {
 			return true
 		}
-		// record the fact established on this branch about `form`
-		op := be.Op
-		if !branch {
-			op = map[token.Token]token.Token{token.GTR: token.LEQ, token.LSS: token.GEQ, token.GEQ: token.LSS, token.LEQ: token.GTR, token.EQL: token.NEQ, token.NEQ: token.EQL}[op]
+		// record the bound established on this branch about `form`
+		if b, ok := c.boundOf(condAtom{E: be, Pos: branch}); ok {
+			if b.Lo != nil {
+				pay(st).guards = append(pay(st).guards, fmt.Sprintf("%s >= %d", form, *b.Lo))
+			}
+			if b.Hi != nil {
+				pay(st).guards = append(pay(st).guards, fmt.Sprintf("%s <= %d", form, *b.Hi))
+			}
 		}
-		pay(st).guards = append(pay(st).guards, fmt.Sprintf("%s %s %d", form, op, k))
 		return true
 	}
 	in := newInterp(c, h)
@@ -651,16 +653,12 @@ func checkJumpArith(c *Ctx, r *Report, rule string) {
 			}
 			lo, hi := false, false
 			for _, g := range p.guards {
-				if g == pt.Val.String()+" >= 0" || g == pt.Val.String()+" > -1" {
+				var k int64
+				if n, _ := fmt.Sscanf(strings.TrimPrefix(g, pt.Val.String()+" >= "), "%d", &k); n == 1 && strings.HasPrefix(g, pt.Val.String()+" >= ") && k >= 0 {
 					lo = true
 				}
-				for k := int64(0); k <= 65535; k++ {
-					if k < 65535 {
-						k = 65535 // only the exact bounds are accepted
-					}
-					if g == fmt.Sprintf("%s <= %d", pt.Val, k) || g == fmt.Sprintf("%s < %d", pt.Val, k+1) {
-						hi = true
-					}
+				if n, _ := fmt.Sscanf(strings.TrimPrefix(g, pt.Val.String()+" <= "), "%d", &k); n == 1 && strings.HasPrefix(g, pt.Val.String()+" <= ") && k <= 65535 {
+					hi = true
 				}
 			}
 			okLo = okLo && lo
